@@ -78,6 +78,9 @@ fn specs(unit: &Value) -> Vec<(bool, RpcSpec, Option<String>)> {
                 // names differing only in letter case are different names
                 6 => s = s.header("h-Shard", "upper").header("h-shard", "lower").header("X-Request-Tag", "t").header("ETag", "e"),
                 7 => s = s.header("h-É", "upper").header("h-é", "lower").header(" h-space ", " v ").header("TIMEOUT", "abc"),
+                // a timeout header longer / shorter than the defaults of both ends (unit "timeouts")
+                10 => s = s.header("timeout", "30000000000").header("h-one", "1"),
+                11 => s = s.header("timeout", "2000000000").header("h-one", "1"),
                 _ => s = s.header("h-utf8-é", "ü\u{0}\n"),
             }
             let odd_route = match variant {
@@ -88,7 +91,7 @@ fn specs(unit: &Value) -> Vec<(bool, RpcSpec, Option<String>)> {
             };
             s = s.route(odd_route);
             let other = RpcSpec::new("other").route("/o").header("h-o", "o").body(pattern_body(5, 999));
-            if variant >= 8 {
+            if variant == 8 || variant == 9 {
                 // several requests on ONE route whose header maps are rearrangements of each other:
                 // the same names with the values exchanged, and one value repeated under two names
                 let ab = unit["ab"].as_bool().unwrap();
@@ -239,8 +242,18 @@ async fn scenario(sim: Arc<Sim>, unit: Value) -> Obs {
     if unit["kind"] == "fail" {
         return scenario_fail(sim, unit).await;
     }
-    let a = sim.start(&NodeSpec::new(1)).unwrap();
-    let b = sim.start(&NodeSpec::new(2)).unwrap();
+    // optionally both ends run with request-timeout defaults (5 s inbound, 7 s outbound): a
+    // deadline in force must not change what is delivered
+    let mk_cfg = || {
+        let mut c = anemo::Config::default();
+        if unit["timeouts"].as_bool().unwrap_or(false) {
+            c.inbound_request_timeout_ms = Some(5_000);
+            c.outbound_request_timeout_ms = Some(7_000);
+        }
+        c
+    };
+    let a = sim.start(&NodeSpec::new(1).config(mk_cfg())).unwrap();
+    let b = sim.start(&NodeSpec::new(2).config(mk_cfg())).unwrap();
     let (na, nb) = (sim.node_of(&a), sim.node_of(&b));
     let mut log = vec![];
     let mut violations = vec![];
@@ -434,9 +447,12 @@ impl Check for C02 {
         for mode in FAIL_MODES {
             u.push(json!({"kind":"fail","mode":mode,"bound":tier.pick(1,2),"fate_budget":tier.pick(40,80)}));
         }
-        for variant in 0..10 {
+        for variant in 0..12 {
             for ab in [true, false] {
                 u.push(json!({"kind":"hdr","variant":variant,"ab":ab,"bound":tier.pick(0,1),"fate_budget":tier.pick(0,200)}));
+                if variant == 1 || variant >= 10 {
+                    u.push(json!({"kind":"hdr","variant":variant,"ab":ab,"timeouts":true,"bound":0,"fate_budget":0}));
+                }
             }
         }
         u
